@@ -51,6 +51,9 @@ pub struct GenOpts {
     pub wide_max: usize,
     /// restrict to small code points and small sets (Miri)
     pub tiny: bool,
+    /// out of 8 specs, how many may use code points >= U+0800 (their char-wise code table
+    /// has up to 1.1M entries, which dominates the cost of a run)
+    pub big_cp_of_8: usize,
 }
 
 pub fn gen_spec(rng: &mut Rng, o: &GenOpts) -> (Spec, PatClass) {
@@ -83,6 +86,7 @@ pub fn gen_spec(rng: &mut Rng, o: &GenOpts) -> (Spec, PatClass) {
         }
     };
     let mut set: BTreeSet<Vec<u8>> = BTreeSet::new();
+    let small_cp = o.tiny || !rng.chance(o.big_cp_of_8, 8);
     match class {
         PatClass::Dense => {
             let n = rng.range(1, if o.tiny { 6 } else { 12 });
@@ -127,14 +131,14 @@ pub fn gen_spec(rng: &mut Rng, o: &GenOpts) -> (Spec, PatClass) {
                 }
                 Variant::Charwise => {
                     // many distinct characters => large code table and block length
-                    let base = *rng.pick(&[0x61u32, 0x400, 0x4e00, 0x1f600]);
+                    let base = if small_cp { *rng.pick(&[0x61u32, 0x400]) } else { *rng.pick(&[0x61u32, 0x400, 0x4e00, 0x1f600]) };
                     let span = *rng.pick(&[40u32, 200, 600]);
                     for _ in 0..n {
                         let len = rng.range(1, 4);
                         let s: String = (0..len)
                             .map(|_| {
                                 if rng.chance(1, 6) {
-                                    rand_char(rng, false)
+                                    rand_char(rng, small_cp)
                                 } else {
                                     char::from_u32(base + rng.below(span as usize) as u32)
                                         .unwrap_or('a')
@@ -153,7 +157,7 @@ pub fn gen_spec(rng: &mut Rng, o: &GenOpts) -> (Spec, PatClass) {
                     break;
                 }
                 let len = rng.range(1, 4);
-                let s: String = (0..len).map(|_| rand_char(rng, o.tiny)).collect();
+                let s: String = (0..len).map(|_| rand_char(rng, small_cp)).collect();
                 set.insert(s.into_bytes());
             }
         }
